@@ -435,8 +435,9 @@ def run(rep):
              'declaration can never change)', floor=5)
     rep.rule('R02.5', 'queries read only the implied set: isOrExtends = '
              'membership; providedBy/implementedBy = self in spec._implied; '
-             'extends = membership and (not strict or self != interface)',
-             floor=5)
+             'extends = membership and (not strict or self != interface); same '
+             'for the C twins SB_extends/SB_providedBy/SB_implementedBy',
+             floor=9)
     rep.rule('R02.6', '_calculate_sro uses the current __sro__ of the current '
              'bases and always returns the root last', floor=3)
     rep.assume('the __bases__ graph is acyclic (the package does not enforce '
